@@ -8,6 +8,7 @@ import (
 	"runtime"
 	"strconv"
 	"sync"
+	"sync/atomic"
 	"time"
 
 	"github.com/thought-machine/please/src/cmap"
@@ -40,9 +41,12 @@ func cmapEngine(args []string) error {
 	nh, _ := strconv.Atoi(args[1])
 	for h := 0; h < nh; h++ {
 		rng := rand.New(rand.NewSource(seed*100003 + int64(h)))
-		if h%4 == 3 {
+		switch {
+		case h%4 == 3:
 			errMapHistory(rng, h)
-		} else {
+		case h%4 == 1:
+			stormHistory(rng, h)
+		default:
 			mapHistory(rng, h)
 		}
 	}
@@ -144,6 +148,93 @@ func mapHistory(rng *rand.Rand, h int) {
 	}
 	wg.Wait()
 	cmapEmit(rec{"ev": "AllReturned"})
+	time.Sleep(2 * time.Millisecond)
+	close(done)
+	waiters.Wait()
+}
+
+// stormHistory releases several goroutines from a spin barrier so that they run the SAME kind of operation on the
+// SAME absent key at the same instant: the narrow check-then-act windows of the map are hit far more often than by
+// random plans.
+func stormHistory(rng *rand.Rand, h int) {
+	shards := uint64(1)
+	nthreads := 3 + rng.Intn(2)
+	op := rng.Intn(4)
+	cmapEmit(rec{"ev": "Reset", "h": h, "shards": shards, "kind": "Storm"})
+	m := cmap.New[int, int](shards, func(k int) uint64 { return uint64(k) })
+	var wg, waiters sync.WaitGroup
+	done := make(chan struct{})
+	var ready, goFlag int32
+	for t := 0; t < nthreads; t++ {
+		wg.Add(1)
+		go func(t int) {
+			defer wg.Done()
+			k, v := 1, 100*(t+1)+1
+			call := func(name string, val int) { cmapEmit(rec{"ev": "Call", "th": t, "op": name, "k": k, "v": val}) }
+			ret := func(ok bool, got int, w, first bool) {
+				cmapEmit(rec{"ev": "Ret", "th": t, "ok": ok, "v": got, "w": w, "f": first, "vals": []int{}})
+			}
+			// the Call is logged before the barrier, the operation runs right after it
+			switch op {
+			case 0:
+				call("AddOrGet", v)
+			case 1:
+				call("Add", v)
+			case 2:
+				call("GetOrWait", 0)
+			default:
+				if t == 0 {
+					call("Add", v)
+				} else {
+					call("GetOrWait", 0)
+				}
+			}
+			atomic.AddInt32(&ready, 1)
+			for atomic.LoadInt32(&goFlag) == 0 {
+			}
+			switch {
+			case op == 0:
+				got, ins := m.AddOrGet(k, func() int { return v })
+				ret(ins, got, false, false)
+			case op == 1 || (op == 3 && t == 0):
+				ok := m.Add(k, v)
+				ret(ok, 0, false, false)
+			default:
+				got, ch, first := m.GetOrWait(k)
+				ret(true, got, ch != nil, first)
+				if ch != nil {
+					waiters.Add(1)
+					go func() {
+						defer waiters.Done()
+						select {
+						case <-ch:
+							cmapEmit(rec{"ev": "Woken", "k": k})
+						case <-done:
+							select {
+							case <-ch:
+								cmapEmit(rec{"ev": "Woken", "k": k})
+							default:
+								cmapEmit(rec{"ev": "NotWoken", "k": k})
+							}
+						}
+					}()
+				}
+			}
+		}(t)
+	}
+	for atomic.LoadInt32(&ready) < int32(nthreads) {
+		runtime.Gosched()
+	}
+	atomic.StoreInt32(&goFlag, 1)
+	wg.Wait()
+	cmapEmit(rec{"ev": "AllReturned"})
+	if op >= 2 {
+		// someone adds the key afterwards so that every waiter must be released
+		cmapEmit(rec{"ev": "Call", "th": 0, "op": "Set", "k": 1, "v": 999})
+		m.Set(1, 999)
+		cmapEmit(rec{"ev": "Ret", "th": 0, "ok": true, "v": 0, "w": false, "f": false, "vals": []int{}})
+		cmapEmit(rec{"ev": "AllReturned"})
+	}
 	time.Sleep(2 * time.Millisecond)
 	close(done)
 	waiters.Wait()
